@@ -709,6 +709,120 @@ def s1_parts(tier, sw, ew):
     return parts
 
 
+# -- RequestId histories: its fields are public and assignable; observers may fill caches (read-then-set-then-read) ---------
+RIDH_BASES = [(0x1822, 0xC011), (0xF7FF, 0x3FFE)]
+RIDH_OBSERVERS = ["as_u32", "pack", "hash", "eq", "repr"]
+RIDH_MUTATORS = ["ver=0", "ver=5", "psc.count=1", "psc.count=16383", "psc.flags=0", "psc.flags=2", "pid.apid=0", "pid.apid=2047",
+                 "pid.type^", "pid.shf^", "psc=new", "pid=new"]
+
+
+def ridh_events():
+    return RIDH_OBSERVERS + RIDH_MUTATORS
+
+
+def check_rid_history(rec: Rec, base, route, seq):
+    """after any sequence of field assignments and reads, the packed form, the 32-bit form, equality and hash of a
+    RequestId are those of its CURRENT field values (model: a plain list of the six fields)"""
+    L = lib()
+    sp = L.sp
+    w0, w1 = base
+    case = {"kind": "ridhist", "base": [w0, w1], "route": route, "seq": list(seq)}
+    rec.case(True, ops=len(seq) + 6)
+    try:
+        r = build_rid(route, w0, w1)
+    except Exception:
+        return  # judged by check_rid
+    m = list(rid_fields(w0, w1))  # ver, typ, shf, apid, flags, count
+    last = "start"
+
+    def fresh(f):
+        return L.RequestId(sp.PacketId(sp.PacketType(f[1]), bool(f[2]), f[3]), sp.PacketSeqCtrl(sp.SequenceFlags(f[4]), f[5]), f[0])
+
+    def observe(what):
+        ref4 = RP.request_id(*m)
+        try:
+            if what == "as_u32":
+                got, exp = r.as_u32(), int.from_bytes(ref4, "big")
+            elif what == "pack":
+                got, exp = bytes(r.pack()), ref4
+            elif what == "hash":
+                got, exp = hash(r) == hash(fresh(m)), True
+            elif what == "eq":
+                other = list(m)
+                other[5] ^= 1
+                got = (bool(r == fresh(m)), bool(fresh(m) == r), bool(r == fresh(other)), bool(fresh(other) == r))
+                exp = (True, True, False, False)
+            else:
+                try:  # only called because it may fill caches; the textual form is not part of the property
+                    repr(r)
+                    str(r)
+                except Exception:
+                    pass
+                return True
+        except Exception as e:
+            rec.violation(f"C15.history/RequestId.{what}/exception/after-{last}", case, type(e).__name__ + ": " + str(e)[:100], None)
+            return False
+        if got != exp:
+            rec.violation(f"C15.history/RequestId.{what}/not-of-the-current-field-values/after-{last}", case, got, exp,
+                          repro=f"# RequestId for words {w0:#06x} {w1:#06x} built by {route}; events {list(seq)}; see checks/c15.py check_rid_history")
+            return False
+        return True
+
+    for ev in seq:
+        if ev in RIDH_OBSERVERS:
+            if not observe(ev):
+                return
+            continue
+        try:
+            if ev.startswith("ver="):
+                m[0] = int(ev[4:])
+                r.ccsds_version = m[0]
+            elif ev.startswith("psc.count="):
+                m[5] = int(ev[10:])
+                r.tc_psc.seq_count = m[5]
+            elif ev.startswith("psc.flags="):
+                m[4] = int(ev[10:])
+                r.tc_psc.seq_flags = sp.SequenceFlags(m[4])
+            elif ev.startswith("pid.apid="):
+                m[3] = int(ev[9:])
+                r.tc_packet_id.apid = m[3]
+            elif ev == "pid.type^":
+                m[1] ^= 1
+                r.tc_packet_id.ptype = sp.PacketType(m[1])
+            elif ev == "pid.shf^":
+                m[2] ^= 1
+                r.tc_packet_id.sec_header_flag = bool(m[2])
+            elif ev == "psc=new":
+                m[4], m[5] = 1, 0x2AAA
+                r.tc_psc = sp.PacketSeqCtrl(sp.SequenceFlags(1), 0x2AAA)
+            elif ev == "pid=new":
+                m[1], m[2], m[3] = 0, 1, 0x555
+                r.tc_packet_id = sp.PacketId(sp.PacketType(0), True, 0x555)
+        except Exception as e:
+            rec.violation(f"C15.history/RequestId.{ev.split('=')[0]}=/exception", case, type(e).__name__ + ": " + str(e)[:100], "assignable public field")
+            return
+        last = "assignment"
+    for what in ("as_u32", "pack", "eq", "hash"):
+        if not observe(what):
+            return
+    rec.outcome(f"ridhist/{route}/ok")
+
+
+def run_ridhist(rec: Rec, item):
+    evs = ridh_events()
+    n = 0
+    for base in RIDH_BASES:
+        for d in range(1, item["depth"] + 1):
+            for seq in itertools.product(evs, repeat=d):
+                if seq[0] != evs[item["first"]]:
+                    continue
+                if not any(e in RIDH_MUTATORS for e in seq):
+                    continue
+                check_rid_history(rec, tuple(base), item["route"], seq)
+                n += 1
+    rec.count("request_id_field_assignment_histories", n)
+
+
 def shards(tier):
     k = _k(tier)
     items = []
@@ -745,6 +859,9 @@ def shards(tier):
     items.append({"kind": "pfe-walk", "tier": tier})
     items.append({"kind": "pfc", "tier": tier})
     items.append({"kind": "units", "tier": tier})
+    for route in ("constructor", "unpack", "from_sp_header"):
+        for first in range(len(ridh_events())):
+            items.append({"kind": "ridhist", "route": route, "first": first, "depth": 3 if tier == "quick" else 4})
     first, rest, seen = [], [], set()
     for it in items:  # one shard of every kind first (the first six samples then show different kinds of case)
         (rest if it["kind"] in seen else first).append(it)
@@ -775,6 +892,10 @@ def s1_cases(item):
 
 
 def run_shard(item):
+    if item.get("kind") == "ridhist":
+        rec = Rec(PROPERTY, item)
+        run_ridhist(rec, item)
+        return rec.result()
     rec = Rec(PROPERTY, item)
     kind = item["kind"]
     if kind == "sweep":
@@ -856,6 +977,10 @@ def run_shard(item):
 
 
 def replay(case):
+    if case.get("kind") == "ridhist":
+        rec = Rec(PROPERTY, "replay")
+        check_rid_history(rec, tuple(case["base"]), case["route"], case["seq"])
+        return rec.result()
     rec = Rec(PROPERTY, "replay")
     case = unhex(case)
     kind = case["kind"]
